@@ -613,3 +613,44 @@ Lemma status_first_witness :
     /\ response_decoder cut_parser w_sniffed = KText
     /\ decode toy_dec KText SStruct b = None.
 Proof. do 3 eexists. repeat split; vm_compute; reflexivity. Qed.
+
+(* what send writes is what the chosen encoder produces, nothing else *)
+Lemma send_body pmt errmt cenc accept ct w st v k b w' :
+  send pmt errmt cenc accept ct w st v = (Some k, b, w') -> b = encode cenc k v.
+Proof.
+  unfold send. destruct (response_encoder pmt errmt accept ct (live w)) as [k0 h].
+  destruct k0 as [k0|]; [|discriminate].
+  destruct (encode cenc k0 v) eqn:E; intro H; injection H as <- <- _; congruence.
+Qed.
+
+Lemma response_encoder_no_designed_some pmt errmt accept preset :
+  exists k h, response_encoder pmt errmt accept [] preset = (Some k, h).
+Proof.
+  unfold response_encoder. cbn [beq negb].
+  destruct (match negotiate accept with
+            | Some r => Some r
+            | None => match pmt accept with Some mt => negotiate mt | None => None end
+            end) as [[k mt]|]; eauto.
+Qed.
+
+Lemma not_found_total pmt errmt cenc accept :
+  exists k b w', mux_not_found pmt errmt cenc accept = (Some k, b, w').
+Proof.
+  unfold mux_not_found, send.
+  destruct (response_encoder_no_designed_some pmt errmt accept (live (w_new []))) as (k & h & ->).
+  destruct (encode cenc k (VStruct 0)); eauto.
+Qed.
+
+Lemma not_found_roundtrip pmt errmt cenc :
+  parser_stable pmt -> parser_fixes_supported pmt ->
+  forall accept k b w',
+    mux_not_found pmt errmt cenc accept = (Some k, b, w') ->
+    exists hdr, sent w' = Some (404, hdr) /\ response_decoder pmt hdr = k
+                /\ b = encode cenc k (VStruct 0) /\ (k = KText -> b = None).
+Proof.
+  intros Hs Hf accept k b w' H. unfold mux_not_found in H.
+  pose proof (send_body _ _ _ _ _ _ _ _ _ _ _ H) as Hb.
+  apply send_wire in H as (hdr & R & S); [|reflexivity].
+  exists hdr. split; [exact S|]. split; [exact (roundtrip_fresh pmt errmt Hs Hf accept [] k hdr R)|].
+  split; [exact Hb|]. intros ->. rewrite Hb. reflexivity.
+Qed.
